@@ -277,3 +277,26 @@ fn strategy_big() -> impl Strategy<Value = Case> {
 pub fn replay(_sub: &str, case: &Value) -> Result<(), String> {
     check(&from_json(case), &mut Stats::new())
 }
+
+/// Fuzz entry: bytes -> small object + delivery history -> soundness oracle.
+pub fn fuzz_one(data: &[u8]) -> Result<(), String> {
+    use arbitrary::Unstructured;
+    let mut u = Unstructured::new(data);
+    let al = [1usize, 2, 4, 8][u.int_in_range(0..=3usize).unwrap_or(0)];
+    let tu = u.int_in_range(1..=(72 / al).max(1)).unwrap_or(1);
+    let z = u.int_in_range(1..=3usize).unwrap_or(1);
+    let kt = u.int_in_range(z..=z * 24).unwrap_or(z);
+    let n = u.int_in_range(1..=tu.min(4)).unwrap_or(1);
+    let t = tu * al;
+    let r = u.int_in_range(1..=t).unwrap_or(t);
+    let spec = ObjectSpec { al, tu, z, n, kt, r, class: u.int_in_range(0..=4u64).unwrap_or(0), seed: u.arbitrary().unwrap_or(0) };
+    let complete: bool = u.arbitrary().unwrap_or(false);
+    let wire: bool = u.arbitrary().unwrap_or(false);
+    let backend = u.int_in_range(0..=2u8).unwrap_or(0);
+    let mut hist = vec![];
+    while !u.is_empty() && hist.len() < 220 {
+        hist.push(u.arbitrary::<u16>().unwrap_or(0));
+    }
+    let c = Case { spec, hist, complete, wire, backend };
+    check(&c, &mut Stats::new()).map_err(|m| format!("{m} | case {}", to_json(&c)))
+}
